@@ -1169,8 +1169,7 @@ class _Tree(_ArithmeticMixin, _Base):
         if index > 0 and child.size and compare(key, data[index].key) == 0:
             self._p_changed = True
             # (the comparison may have swept the cache again)
-            data = self._data
-            data[index].key = child.minKey()
+            self._data[index].key = child.minKey()
 
         if removed_first_bucket:
             if index:
@@ -1186,7 +1185,7 @@ class _Tree(_ArithmeticMixin, _Base):
                 else:
                     self._firstbucket = child._next
                     removed_first_bucket = True
-            del data[index]
+            del self._data[index]
             self._p_changed = True
 
         return removed_first_bucket, value
